@@ -144,6 +144,14 @@ class C09(Prop):
                     continue
                 started = rng.randrange(2)
                 yield f"life run 3 {'010' if started else '000'} 0,{5 if started else 0},0 {started} {';'.join(seq)}", f"exhaustive-{k}"
+        # a device without channels (F18): connect, stream, write, disconnect must still be a clean life cycle
+        zero = ["C", "X", "S", "T", "W", "N", "N!", "D", "D!", "s0", "g0", "e0", "e0!", "v5:0!", "u0"]
+        yield "life run 3 - - 0 C;S;X;X", "zero-channels"
+        yield "life run 3 - - 1 C;X;C;W;N!;X", "zero-channels"
+        for _ in range(60 if T else 20):
+            yield (f"life run {rng.randrange(4)} - - {rng.randrange(2)} "
+                   f"{';'.join(rng.choice(zero) for _ in range(rng.randrange(2, 12)))}"), "zero-channels"
+        yield f"life run 3 {'0' * 254 + '1'} {','.join(['0'] * 255)} 1 C;e3!;S;X;C;X", "255-channels"
         for _ in range(800 if T else 150):
             n = rng.choice([1, 2, 3, 5])
             en = [rng.random() < 0.4 for _ in range(n)]
